@@ -1,9 +1,9 @@
 SPECIFICATION Spec
 CONSTANTS
-  MaxTok = 4
-  Alphabet = {"ident", "delim", "star", "open", "close", "lbrace", "rbrace", "colon", "semi", "atrl", "atdl", "atun", "ws", "comment", "cpname", "cdo", "other"}
+  MaxTok = 5
+  Alphabet = {"ident", "star", "open", "close", "lbrace", "rbrace", "colon", "semi", "atrl", "atdl", "atun"}
   Modes = {TRUE, FALSE}
-  Emit = TRUE
+  Emit = FALSE
   AtDeclEndsAtEOF = TRUE
   StarAloneAtEOF = TRUE
   GuardedPop = TRUE
